@@ -33,7 +33,7 @@ ASSUMPTIONS = [
 
 THRESHOLDS = [0, 1, 8, 64, 32768]
 NASTY = ['\r', '\n', '\r\n', '\x00', '\x85', '\u2028', '\u2029', '\ufeff', '\U0001f600', '\U00010000', 'a\rb', '\r\r\n']
-SURR = ['\ud800', '\udfff', 'a\udc80b']
+SURR = ['\ud800', '\udfff', 'a\udc80b', '\udcc3\udca9', 'caf\udcc3\udca9 ', '\udce2\udc82\udcac', '\udcff\udcfe', '\udc80']  # incl. the surrogateescape range DC80..DCFF
 
 
 def lengths(T):
